@@ -1,0 +1,13 @@
+//! Verification-only stand-in for `std`, compiled only with `--cfg cwe_checker_verif`.
+//!
+//! Identical to `std` except that `thread` is the module of the deterministic
+//! simulator's scheduler (`shuttle`), so that modules which alias this module as `std`
+//! spawn and join scheduler-owned threads.
+//! The dependency `shuttle` is only provided by the verification build (see `/verif/sim`),
+//! the regular build never compiles this file.
+pub use ::std::*;
+
+/// Scheduler-owned replacement of `std::thread`.
+pub mod thread {
+    pub use shuttle::thread::*;
+}
